@@ -460,15 +460,16 @@ class HTML(XML):
 
 # Tell JSON how to format XML:
 def _json_print_XMLElement(self: JSONFormatter, printer: Printer, node: XMLElement):
+    # The element's components already have a parent (the element), so wrap them in temporary containers
     kvps = [
-        KeyValuePairNode(StringNode('tag'), node.tag),
+        KeyValuePairNode.without_parenting(StringNode('tag'), node.tag),
     ]
     if len(node.attrib) > 0:
-        kvps.append(KeyValuePairNode(StringNode('attrs'), node.attrib))
+        kvps.append(KeyValuePairNode.without_parenting(StringNode('attrs'), node.attrib))
     if node.text is not None:
-        kvps.append(KeyValuePairNode(StringNode('text'), node.text))
-    kvps.append(KeyValuePairNode(StringNode('children'), node._children))
-    self.print(printer, DictNode(kvps))
+        kvps.append(KeyValuePairNode.without_parenting(StringNode('text'), node.text))
+    kvps.append(KeyValuePairNode.without_parenting(StringNode('children'), node._children))
+    self.print(printer, DictNode.without_parenting(kvps))
 
 
 setattr(JSONFormatter, "print_XMLElement", _json_print_XMLElement)
